@@ -135,8 +135,12 @@ def corrupt_item(rng, delay):
     elif r < 0.82:
         ops = []
         for _ in range(rng.randint(1, 3)):
-            k = rng.choice(["del", "dup", "swap_tag", "len", "set_content", "trunc_content", "raw"])
+            k = rng.choice(["del", "dup", "swap_tag", "len", "set_content", "trunc_content", "raw", "len_form", "tag_form"])
             ops.append({"op": k, "node": rng.randrange(0, 60), "tag": rng.choice(SWAP_TAGS), "delta": rng.choice([-3, -1, 1, 2, 100, 5000, 2**31]), "hex": garbage(rng).hex(), "n": rng.randrange(0, 4)})
+            if k == "len_form":
+                ops[-1]["form"] = rng.choice(["indef", "indef-eoc", "ff", "max32", "max64", "nine", "wide126", "wide127", "zero-long", "top-bit"])
+            elif k == "tag_form":
+                ops[-1]["hex"] = rng.choice(["1f00", "1f04", "1f30", "1f8100", "1f8004", "1fffffffffffffffffff7f", "3f10", "5f1f", "bf8000", "1f", "1fff", "ff7f"])
         it["inner"] = ops
     elif r < 0.9:
         it["rewrite"] = {"salt": garbage(rng, rng.choice([0, 1, 4, 7, 9, 12, 16])).hex()}
@@ -164,7 +168,7 @@ class C01(Prop):
         return [("corrupt", 6), ("directed", 4), ("sockerr", 1), ("raw-only", 1), ("late-stray", 1)]
 
     def expected_counters(self, tier):
-        return ["fault.raw", "fault.cut-at-tlv", "fault.outer.truncate", "fault.outer.byteset", "fault.outer.bitflip", "fault.inner.del", "fault.inner.dup", "fault.inner.swap_tag", "fault.inner.len", "fault.rewrite.salt", "agent.custom", "fault.recv-errno", "probe.poison-differential", "fault.rewrite.cipher-trim", "fault.slow-client"]
+        return ["fault.raw", "fault.cut-at-tlv", "fault.outer.truncate", "fault.outer.byteset", "fault.outer.bitflip", "fault.inner.del", "fault.inner.dup", "fault.inner.swap_tag", "fault.inner.len", "fault.inner.len_form", "fault.inner.tag_form", "fault.rewrite.salt", "agent.custom", "fault.recv-errno", "probe.poison-differential", "fault.rewrite.cipher-trim", "fault.slow-client"]
 
     def gen(self, rng, family, tier):
         cfgname = rng.choice(CONFIGS)
